@@ -68,6 +68,63 @@ pub fn summarise(case: &Case) -> serde_json::Value {
     v
 }
 
+#[derive(Serialize, Deserialize, Default)]
+struct ChildOut {
+    stats: Stats,
+    viols: Vec<Violation>,
+    tainted: bool,
+    nontrivial: bool,
+    n_ops: usize,
+    /// Present when there is a violation, or when the parent may want it as an evidence sample.
+    case: Option<Case>,
+}
+
+/// Executes one run in a forked child: the real program runs once per process, so no state of the
+/// system under test (statics, caches) may survive from one simulated run to the next.  The parent
+/// never simulates, hence never has threads of its own when it forks.
+/// Runs `f` in a forked child and returns what it returned (None if the child died).
+pub fn in_child<T: Serialize + serde::de::DeserializeOwned>(f: impl FnOnce() -> T) -> Option<T> {
+    let mut fds = [0i32; 2];
+    if unsafe { libc::pipe(fds.as_mut_ptr()) } != 0 { return None; }
+    let pid = unsafe { libc::fork() };
+    if pid < 0 { return None; }
+    if pid == 0 {
+        unsafe { libc::close(fds[0]); }
+        let out = f();
+        let data = serde_json::to_vec(&out).unwrap_or_default();
+        let mut off = 0;
+        while off < data.len() {
+            let n = unsafe { libc::write(fds[1], data[off..].as_ptr() as *const libc::c_void, data.len() - off) };
+            if n <= 0 { break; }
+            off += n as usize;
+        }
+        unsafe { libc::close(fds[1]); libc::_exit(0); }
+    }
+    unsafe { libc::close(fds[1]); }
+    let mut data: Vec<u8> = Vec::with_capacity(1 << 14);
+    let mut buf = [0u8; 1 << 16];
+    loop {
+        let n = unsafe { libc::read(fds[0], buf.as_mut_ptr() as *mut libc::c_void, buf.len()) };
+        if n > 0 { data.extend_from_slice(&buf[..n as usize]); } else if n == 0 { break; } else if std::io::Error::last_os_error().kind() != std::io::ErrorKind::Interrupted { break; }
+    }
+    unsafe { libc::close(fds[0]); }
+    let mut status = 0i32;
+    unsafe { libc::waitpid(pid, &mut status, 0); }
+    serde_json::from_slice(&data).ok()
+}
+
+fn run_isolated(prop: &Prop, seed: u64, tier: Tier, i: u64, want_sample_below: usize) -> Option<ChildOut> {
+    in_child(|| {
+        let case = case_for(prop, seed, i, tier);
+        let mut st = Stats { runs: 1, ..Default::default() };
+        let viols = (prop.check)(&case, &mut st);
+        let nontrivial = st.nontrivial_runs > 0;
+        let n_ops = case.script.n_ops();
+        let keep = !viols.is_empty() || (nontrivial && n_ops < want_sample_below);
+        ChildOut { stats: st, viols, tainted: crate::exec::is_tainted(), nontrivial, n_ops, case: if keep { Some(case) } else { None } }
+    })
+}
+
 pub fn worker(prop: &Prop, seed: u64, tier: Tier, start: u64, stride: u64, max_runs: u64, deadline: Duration, out: &str) {
     crate::exec::process_init();
     let known = Known::load();
@@ -75,31 +132,44 @@ pub fn worker(prop: &Prop, seed: u64, tier: Tier, start: u64, stride: u64, max_r
     let mut w = WorkerOut { profile: profile_name(), ..Default::default() };
     let mut i = start;
     let mut shortest: Option<(usize, serde_json::Value)> = None;
+    let mut died = 0u64;
     while i < max_runs && t0.elapsed() < deadline {
-        let case = case_for(prop, seed, i, tier);
-        w.stats.runs += 1;
-        let before = w.stats.nontrivial_runs;
-        let viols = (prop.check)(&case, &mut w.stats);
-        if w.stats.nontrivial_runs > before {
-            if w.stats.samples.len() < 2 { w.stats.sample(json!({"run": i, "case": summarise(&case)})); }
-            let n = case.script.n_ops();
-            if shortest.as_ref().map(|s| n < s.0).unwrap_or(true) { shortest = Some((n, json!({"run": i, "shortest_nontrivial": true, "case": summarise(&case)}))); }
+        let below = if w.stats.samples.len() < 2 { usize::MAX } else { shortest.as_ref().map(|s| s.0).unwrap_or(usize::MAX) };
+        let Some(c) = run_isolated(prop, seed, tier, i, below) else {
+            // the child died without a result (abort, stack overflow, out of memory): not a run we can judge
+            died += 1;
+            *w.stats.outcomes.entry("child-died".into()).or_insert(0) += 1;
+            w.stats.runs += 1;
+            w.stats.discarded_by_crash += 1;
+            if died > 20 { break; }
+            i += stride;
+            continue;
+        };
+        let viols = c.viols;
+        if c.nontrivial {
+            if let Some(case) = &c.case {
+                if w.stats.samples.len() < 2 { w.stats.sample(json!({"run": i, "case": summarise(case)})); }
+                if shortest.as_ref().map(|s| c.n_ops < s.0).unwrap_or(true) { shortest = Some((c.n_ops, json!({"run": i, "shortest_nontrivial": true, "case": summarise(case)}))); }
+            }
         }
+        w.stats.merge_capped(c.stats, crate::stats::MAX_SET);
         let mut stop = false;
         for v in viols {
+            let Some(case) = c.case.clone() else { continue };
             match known.matches(prop.id, &v) {
                 Some(e) => {
                     let ent = w.known.entry(e.id.clone()).or_insert((0, None));
                     ent.0 += 1;
-                    if ent.1.is_none() { ent.1 = Some(Found { run: i, violation: v, case: case.clone() }); }
+                    if ent.1.is_none() { ent.1 = Some(Found { run: i, violation: v, case }); }
                 }
                 None => {
-                    w.unknown.push(Found { run: i, violation: v, case: case.clone() });
+                    w.unknown.push(Found { run: i, violation: v, case });
                     stop = true;
                 }
             }
         }
-        if crate::exec::is_tainted() {
+        if c.tainted {
+            // a run hung (8 s of wall clock each): do not burn the budget on more of them
             w.tainted = true;
             break;
         }
@@ -112,7 +182,18 @@ pub fn worker(prop: &Prop, seed: u64, tier: Tier, start: u64, stride: u64, max_r
 
 // ------------------------------------------------------------------ minimiser
 
+/// (fires?, hung?) - evaluated in a forked child so that candidates do not inherit state from each other.
 fn fires(prop: &Prop, case: &Case, rule: &str, known: &Known, want_known: Option<&str>) -> bool {
+    let r = in_child(|| (fires_here(prop, case, rule, known, want_known), crate::exec::is_tainted()));
+    match r {
+        Some((f, hung)) => { if hung { HUNG.store(true, std::sync::atomic::Ordering::SeqCst); } f }
+        None => false,
+    }
+}
+
+static HUNG: std::sync::atomic::AtomicBool = std::sync::atomic::AtomicBool::new(false);
+
+fn fires_here(prop: &Prop, case: &Case, rule: &str, known: &Known, want_known: Option<&str>) -> bool {
     let mut st = Stats::default();
     let vs = (prop.check)(case, &mut st);
     vs.iter().any(|v| {
@@ -149,11 +230,13 @@ fn without_ops(case: &Case, drop: &[(usize, usize)]) -> Case {
 /// Delta debugging on the script while the same oracle rule keeps firing.
 pub fn minimise(prop: &Prop, case: &Case, rule: &str, known: &Known, want_known: Option<&str>, budget: Duration) -> Case {
     let t0 = Instant::now();
+    // every hanging candidate costs the watchdog time-out: keep the search short for hangs
+    let budget = if rule.ends_with("wedge") { budget.min(Duration::from_secs(25)) } else { budget };
     let mut best = case.clone();
-    let ok = |c: &Case| -> bool { !crate::exec::is_tainted() && fires(prop, c, rule, known, want_known) };
+    let ok = |c: &Case| -> bool { fires(prop, c, rule, known, want_known) };
     if !ok(&best) { return best; }
     let mut progress = true;
-    while progress && t0.elapsed() < budget && !crate::exec::is_tainted() {
+    while progress && t0.elapsed() < budget {
         progress = false;
         // whole connections
         let mut ci = 0;
@@ -353,20 +436,31 @@ pub fn run_batch(prop: &Prop, cfg: &BatchCfg) -> i32 {
     }
     if !unknown.is_empty() {
         unknown.sort_by_key(|(p, f)| (f.run, p.clone()));
-        // one report per distinct rule, lowest run index first
-        let mut seen_rules: Vec<String> = vec![];
+        // one report per distinct rule, lowest run index first.  A candidate whose replay does not reproduce in a
+        // fresh process (the system under test kept state from an earlier run of the same worker process - the
+        // real program runs once per process) is set aside and the next candidate of that rule is tried.
+        let mut reported: Vec<String> = vec![];
+        let mut not_reproduced: Vec<String> = vec![];
         for (pname, f) in &unknown {
-            if seen_rules.contains(&f.violation.rule) { continue; }
-            seen_rules.push(f.violation.rule.clone());
-            if seen_rules.len() > 3 { break; }
-            n_viol += 1;
+            if reported.contains(&f.violation.rule) { continue; }
+            if reported.len() >= 3 { break; }
             let bin = if pname == "simrelease" { PathBuf::from(std::env::var("SIMCHECK_RELEASE_BIN").unwrap()) } else { me.clone() };
             match report(prop, cfg, &bin, pname, f) {
-                Ok(path) => println!("VIOLATION property={} replay={}", prop.id, path),
-                Err(e) => { eprintln!("harness error: {}", e); exit = 2; }
+                Ok(path) => {
+                    reported.push(f.violation.rule.clone());
+                    n_viol += 1;
+                    println!("VIOLATION property={} replay={}", prop.id, path);
+                }
+                Err(e) => { not_reproduced.push(e); }
             }
         }
-        if exit == 0 { exit = 1; }
+        if reported.is_empty() {
+            for e in &not_reproduced { eprintln!("harness error: {}", e); }
+            exit = 2;
+        } else {
+            for e in &not_reproduced { eprintln!("note: {}", e); }
+            exit = 1;
+        }
     }
     let discard_ratio = stats.discarded_by_crash as f64 / stats.runs.max(1) as f64;
     if exit == 0 && discard_ratio > 0.2 {
@@ -397,10 +491,20 @@ fn report(prop: &Prop, cfg: &BatchCfg, bin: &PathBuf, profile: &str, f: &Found) 
         let _ = std::fs::rename(&min_path, &path);
     }
     // the replay must reproduce in a fresh process
-    let out = std::process::Command::new(bin).args(["replay", path.to_str().unwrap()]).env("SIMCHECK_ROOT", root_dir()).output().map_err(|e| e.to_string())?;
-    let text = String::from_utf8_lossy(&out.stdout).to_string();
-    if out.status.code() != Some(1) || !text.contains(&format!("rule={}", f.violation.rule)) {
-        return Err(format!("replay of {} did not reproduce rule {} (exit {:?}): {}", path.display(), f.violation.rule, out.status.code(), text.trim()));
+    let replay = |p: &PathBuf| -> Result<(Option<i32>, String), String> {
+        let out = std::process::Command::new(bin).args(["replay", p.to_str().unwrap()]).env("SIMCHECK_ROOT", root_dir()).output().map_err(|e| e.to_string())?;
+        Ok((out.status.code(), String::from_utf8_lossy(&out.stdout).to_string()))
+    };
+    let (mut code, mut text) = replay(&path)?;
+    if code != Some(1) || !text.contains(&format!("rule={}", f.violation.rule)) {
+        // fall back to the case exactly as it was found
+        std::fs::write(&path, serde_json::to_vec_pretty(&raw).unwrap()).map_err(|e| e.to_string())?;
+        let r = replay(&path)?;
+        code = r.0;
+        text = r.1;
+    }
+    if code != Some(1) || !text.contains(&format!("rule={}", f.violation.rule)) {
+        return Err(format!("replay of {} did not reproduce rule {} (exit {:?}): {}", path.display(), f.violation.rule, code, text.trim()));
     }
     for l in text.lines().filter(|l| l.starts_with("  ")) { println!("{}", l); }
     Ok(path.to_string_lossy().to_string())
@@ -443,15 +547,16 @@ pub fn minimise_file(inp: &str, out: &str) -> i32 {
     let secs = std::env::var("SIMCHECK_MIN_BUDGET_S").ok().and_then(|s| s.parse().ok()).unwrap_or(60);
     let best = minimise(&prop, &rf.case, &rf.rule, &known, want.as_deref(), Duration::from_secs(secs));
     // re-derive message and witness from the minimised case
-    let mut st = Stats::default();
-    if !crate::exec::is_tainted() {
-        let vs = (prop.check)(&best, &mut st);
-        if let Some(v) = vs.iter().find(|v| v.rule == rf.rule) {
-            rf.msg = v.msg.clone();
-            rf.witness = v.witness.clone();
-            rf.case = best;
-            rf.minimised = true;
-        }
+    let rule = rf.rule.clone();
+    let found = in_child(|| {
+        let mut st = Stats::default();
+        (prop.check)(&best, &mut st).into_iter().find(|v| v.rule == rule)
+    });
+    if let Some(Some(v)) = found {
+        rf.msg = v.msg.clone();
+        rf.witness = v.witness.clone();
+        rf.case = best;
+        rf.minimised = true;
     }
     if std::fs::write(out, serde_json::to_vec_pretty(&rf).unwrap()).is_err() { return 2; }
     0
@@ -497,14 +602,15 @@ fn write_evidence(prop: &Prop, cfg: &BatchCfg, s: &Stats, wall: f64, n_viol: usi
             "known_findings_matched": known_hits.iter().map(|(k, v)| (k.clone(), json!(v.0))).collect::<serde_json::Map<_, _>>(),
             "components": {
                 "real_code": ["clap option parsing (Args)", "reader thread (spawn_reader_thread, read_lines, connect_and_read_tcp, read_from_file)", "every decoder", "Planes / Plane table, sweep, sorting, formatting, counters", "std BufReader / lines()"],
-                "stubs": ["clock: chrono::Utc::now() (simchrono shim via shadow manifest)", "TcpStream::connect / read", "File::open / read", "thread::sleep", "stdout (print!/println!)", "log sink"],
+                "stubs": ["clock: chrono::Utc::now() (patched chrono copy sim/chrono-sim via the shadow manifest)", "TcpStream::connect / read", "File::open / read", "thread::sleep", "stdout (print!/println!)", "log sink"],
                 "not_executed": ["src/main.rs (26 lines: option parsing, logger, observer, join)"]
             }
         },
         "assumptions": [
             "the harness's own frame encoder, CRC-24 and reference models are correct (unit-tested against literature vectors)",
-            "the clock shim only replaces Utc::now(); DateTime arithmetic is real chrono",
+            "the clock seam is a verbatim copy of chrono 0.4.40 in which only Utc::now() consults the simulated clock (sim/chrono-sim)",
             "the reader thread is the only code touching the table during a run",
+            "every simulated run executes in its own forked process (no state of the decoder survives from one run to the next, as in the real one-run-per-process program)",
             "seeded sampling: a clean batch is evidence, not proof"
         ],
         "wall_s": wall,
